@@ -22,9 +22,9 @@ def run(tier):
         "generated: a name assigned in every non-empty subset of {module, f, inner, inner-inner} and read at every level where visible",
         "the renaming clause of the property is a relation between runs (not addressed); class attributes are judged as fields",
     ]
-    r.outside += ["JavaScript let/const/var at program level", "multi-file imports (not in this round)"]
+    r.outside += ["JavaScript let/const/var at program level", "import module / star imports, occurrences inside the imported files"]
     kernel_leg(r, tier)
-    fam = progs.family_scope() + progs.family_scope_generated()
+    fam = progs.family_scope() + progs.family_scope_generated() + progs.family_scope_imports()
     wit = progs.scope_witnesses()
     tcommon.drive(r, fam + wit, len(fam), "check_scope", "check_scope_reach", "every executed occurrence is bound to the right declaration",
                   "semantic", TABLES, tier, chunk=4)
@@ -59,4 +59,4 @@ def replay(rec):
     if rec["obligation"].startswith("kernel"):
         out = xrun.replay_native(MK, "check_resolution", rec["cex"].get("slice", {}), rec["cex"]["cex"])
         return bool(out.get("violated")), out
-    return tcommon.replay_program(rec, "check_scope", "semantic", TABLES, progs.family_scope() + progs.family_scope_generated() + progs.scope_witnesses())
+    return tcommon.replay_program(rec, "check_scope", "semantic", TABLES, progs.family_scope() + progs.family_scope_generated() + progs.family_scope_imports() + progs.scope_witnesses())
